@@ -9,11 +9,13 @@ import (
 	"crypto/ecdsa"
 	"crypto/elliptic"
 	"crypto/rsa"
+	"crypto/sha1"
 	"crypto/sha256"
 	"crypto/sha512"
 	"crypto/x509"
 	"encoding/binary"
 	"fmt"
+	"hash"
 	"math/big"
 	"strings"
 
@@ -26,6 +28,7 @@ import (
 	"github.com/linuxboot/fiano/pkg/intel/metadata/cbnt/cbntbootpolicy"
 	"github.com/linuxboot/fiano/pkg/intel/metadata/cbnt/cbntkey"
 	"github.com/tjfoc/gmsm/sm2"
+	"github.com/tjfoc/gmsm/sm3"
 	. "verifharness/common"
 )
 
@@ -75,13 +78,63 @@ func privSpec(k crypto.Signer) string {
 	panic("bad key")
 }
 
+// The harness's own table of the hash algorithms, keyed by the TPM algorithm id literal.
+// Expected digests are never taken from the code under test (cbnt/bg Algorithm.Hash()).
+var stdHashes = map[uint16]struct {
+	size int
+	sum  func([]byte) []byte
+}{
+	0x4:  {20, func(b []byte) []byte { s := sha1.Sum(b); return s[:] }},
+	0xb:  {32, func(b []byte) []byte { s := sha256.Sum256(b); return s[:] }},
+	0xc:  {48, func(b []byte) []byte { s := sha512.Sum384(b); return s[:] }},
+	0xd:  {64, func(b []byte) []byte { s := sha512.Sum512(b); return s[:] }},
+	0x12: {32, func(b []byte) []byte { return sm3.Sm3Sum(b) }},
+}
+
 func hashOf(alg cbnt.Algorithm, data []byte) []byte {
-	h, err := alg.Hash()
-	if err != nil {
-		panic("hash: " + err.Error())
+	h, ok := stdHashes[uint16(alg)]
+	if !ok {
+		panic(fmt.Sprintf("harness: no reference hash for algorithm %#x", uint16(alg)))
 	}
-	h.Write(data)
-	return h.Sum(nil)
+	return h.sum(data)
+}
+
+// p_hash_table flavour msg: for every algorithm id, Algorithm.Hash() exists exactly for the
+// algorithms of the table (cbnt: SHA-1, SHA-256, SHA-384, SHA-512, SM3; bg: SHA-1, SHA-256),
+// reports the standard digest length and computes the standard digest
+func pHashTable(args []string) string {
+	msg := UnH(args[1])
+	ids := []uint16{}
+	for a := 0; a <= 0x40; a++ {
+		ids = append(ids, uint16(a))
+	}
+	ids = append(ids, 0x99, 0x100b, 0xffff)
+	for _, a := range ids {
+		var h hash.Hash
+		var err error
+		want, known := stdHashes[a]
+		if args[0] == "bg" {
+			h, err = bg.Algorithm(a).Hash()
+			known = known && (a == 0x4 || a == 0xb)
+		} else {
+			h, err = cbnt.Algorithm(a).Hash()
+		}
+		if (err == nil) != known {
+			return fmt.Sprintf("FAIL hash-table: algorithm %#x: Hash() error = %v, expected supported = %v", a, err, known)
+		}
+		if !known {
+			continue
+		}
+		if h.Size() != want.size {
+			return fmt.Sprintf("FAIL hash-table: algorithm %#x reports a digest of %d bytes, the standard one has %d", a, h.Size(), want.size)
+		}
+		h.Write(msg[:len(msg)/2])
+		h.Write(msg[len(msg)/2:])
+		if !bytes.Equal(h.Sum(nil), want.sum(msg)) {
+			return fmt.Sprintf("FAIL hash-table: algorithm %#x does not compute the standard digest", a)
+		}
+	}
+	return "ok"
 }
 
 // bit positions to flip in a region of n bytes: all of them when the region is
@@ -1203,6 +1256,7 @@ func pResign(args []string) string {
 }
 
 func registerOracles() {
+	Register("p_hash_table", pHashTable)
 	Register("p_resign", pResign)
 	Register("p_sign_verify", pSignVerify)
 	Register("p_bg_sign_verify", pBgSignVerify)
